@@ -13,6 +13,7 @@ from checks import attester_common as ac
 
 
 def run(ctx):
+    ctx.prove("AttesterProofs")   # unbounded (TLAPS) versions of the model-level invariants TLC checks below
     n, cases, kinds, steps, nbeh = ac.run(ctx, "Trace_Attester_C09.cfg", ["tlc", "random"], ctx.pick(3, 4))
     return ctx.finish({
         "traces_validated_against_impl": len(cases),
